@@ -60,6 +60,39 @@ def check(prog, rep):
     rep.floor("peewee module functions scanned", scanned, 20)
     if not hits:
         rep.ok("AUTOCOMMIT", "PeeweeStorage", "transaction constructs", f"0 in {scanned} functions", mi.relpath)
+    # each statement is its own commit there: a single-event operation must therefore be ONE writing statement per path
+    rep.rule("PW-ATOMIC", "on the auto-committing store every path through insert_one / replace / replace_last / delete executes at most one writing statement (save / create / delete_instance / an executed insert-update-delete chain), directly or through the one self-method it delegates to: two statements are two commits, and a crash between them leaves a state that is no prefix of the issued writes")
+    from ..cfg import cfg_of
+
+    pcls = prog.cls("PeeweeStorage")
+
+    def write_nodes(fi):
+        out = []
+        for n in walk_with_nested_exprs(fi.node):
+            if isinstance(n, ast.Call) and isinstance(n.func, ast.Attribute):
+                a = n.func.attr
+                if a in ("save", "create", "delete_instance", "insert_many", "bulk_create", "bulk_update"):
+                    out.append(n)
+                elif a == "execute" and any(isinstance(x, ast.Call) and isinstance(x.func, ast.Attribute) and x.func.attr in ("delete", "update", "insert", "replace", "insert_many") for x in ast.walk(n.func.value)):
+                    out.append(n)
+                elif isinstance(n.func.value, ast.Name) and n.func.value.id == "self" and a in ("insert_one", "replace", "replace_last", "delete", "insert_many"):
+                    out.append(n)
+        return out
+
+    for m in ("insert_one", "replace", "replace_last", "delete"):
+        fi = pcls.methods.get(m)
+        if fi is None:
+            continue
+        g = cfg_of(fi)
+        ws = write_nodes(fi)
+        nodes = [g.node_of(w) for w in ws]
+        twice = None
+        for i, a in enumerate(nodes):
+            after = g.reach_avoiding([a])
+            for j, b in enumerate(nodes):
+                if b in after and (i != j or a in after):
+                    twice = (ws[i], ws[j])
+        rep.check(twice is None, "PW-ATOMIC", fi.short, "one writing statement per path", f"{len(ws)} writing call site(s), no two on one path", f"`{norm(twice[0])[:50]}` and then `{norm(twice[1])[:50]}` run on the same path: on the auto-committing store these are two commits, so a crash in between leaves the event half-rewritten (e.g. deleted but not re-inserted), a state no prefix of the issued writes produces" if twice else "", fi.loc(twice[1]) if twice else fi.loc())
     # positive fixture: the rule must be able to match
     import os
     fx = os.path.join(os.path.dirname(os.path.dirname(os.path.dirname(__file__))), "fixtures", "peewee_atomic.py")
@@ -73,6 +106,8 @@ def check(prog, rep):
 SQ = "aw_datastore/storages/sqlite.py"
 PW = "aw_datastore/storages/peewee.py"
 VARIANTS = [
+    ("B peewee replace = delete + insert (two commits)", PW, "        e = self._get_event(bucket_id, event_id)\n        e.timestamp = event.timestamp\n        e.duration = event.duration.total_seconds()\n        e.datastr = json.dumps(event.data)\n        e.save()\n        event.id = e.id\n        return event\n\n    def get_event", "        old = self._get_event(bucket_id, event_id)\n        old.delete_instance()\n        event.id = event_id\n        e = EventModel.from_event(self.bucket_keys[bucket_id], event)\n        e.save(force_insert=True)\n        return event\n\n    def get_event", "PW-ATOMIC"),
+    ("B commit() swallows a failed flush and stamps anyway", SQ, "        self.conn.commit()\n        self.last_commit = datetime.now()", "        try:\n            self.conn.commit()\n        except sqlite3.OperationalError as e:\n            logger.warning(f\"Commit failed: {e}\")\n        self.last_commit = datetime.now()", "COMMIT-D"),
     ("B delete without conditional_commit (original defect)", SQ, "        cursor = self.conn.execute(query, [event_id, bucket_id])\n        self.conditional_commit(1)\n", "        cursor = self.conn.execute(query, [event_id, bucket_id])\n", "COMMIT-B"),
     ("B create_bucket not committed", SQ, "                json.dumps(data or {}),\n            ],\n        )\n        self.commit()\n", "                json.dumps(data or {}),\n            ],\n        )\n", "COMMIT-A"),
     ("B replace early return before commit", SQ, "        self.conn.execute(\n            query, [bucket_id, starttime, endtime, datastr, event_id, bucket_id]\n        )\n        self.conditional_commit(1)", "        cur = self.conn.execute(\n            query, [bucket_id, starttime, endtime, datastr, event_id, bucket_id]\n        )\n        if cur.rowcount == 0:\n            return False\n        self.conditional_commit(1)", "COMMIT-B"),
